@@ -24,6 +24,7 @@ pub fn run(ctx: &Ctx, rep: &mut Report) {
     case_loop(ctx, rep, |case, seed, rep| match ctx.prop.as_str() {
         "C16" => super::real_c16::case(ctx, &env, &dir, case, seed, rep),
         "C07" => super::real_misc::c07_prefix_case(ctx, &env, &dir, case, seed, rep),
+        "C08" => super::real_misc::c08_rawname_case(ctx, &env, &dir, case, seed, rep),
         "C12" => super::real_misc::c12_process_case(ctx, &env, &dir, case, seed, rep),
         "C20" => super::real_misc::c20_pty_case(ctx, &env, &dir, case, seed, rep),
         "C06" if case % 4 == 1 => super::real_misc::c06_deep_chain_case(ctx, &env, &dir, case, seed, rep),
